@@ -25,16 +25,6 @@ Fixpoint Jtree (t : tree) : J :=
 Definition Jtarget (t : target) : J :=
   match t with TgNone => JNone | TgIdx i => JL [JS "I"; JLZ i] | TgLen n => JL [JS "n"; JZ (Z.of_nat n)] end.
 
-(* _df_reindex raises when a numpy array of length > 1 meets a pandas index of another length *)
-Definition arr_clash (tg : target) (os : list obj) : bool :=
-  match tg with
-  | TgIdx i => existsb (fun o => match o with
-                                 | OA a => negb (Nat.eqb (List.length a) (List.length i)) && Nat.ltb 1 (List.length a)
-                                 | OA2 _ a => negb (Nat.eqb (List.length a) (List.length i)) && Nat.ltb 1 (List.length a)
-                                 | _ => false end) os
-  | _ => false
-  end.
-
 Definition run_index (c : tree * how) : J := let '(tr, h) := c in Jtarget (df_index (flatten tr) h).
 (* df_columns: the common column set of the proper frames *)
 Definition run_columns (c : tree * how) : J :=
@@ -42,14 +32,10 @@ Definition run_columns (c : tree * how) : J :=
   match join_index h (frame_cols (flatten tr)) with Some C => JL [JS "C"; JLZ C] | None => JNone end.
 Definition run_reindex (c : tree * how * method) : J :=
   let '(tr, h, m) := c in
-  let tg := match h with HX x => TgIdx x | _ => df_index (flatten tr) h end in
-  if arr_clash tg (flatten tr) then JErr "ValueError" else Jtree (df_reindex tr h m).
+  match df_reindex_checked tr h m with Some r => Jtree r | None => JErr "ValueError" end.
 Definition run_sync (c : tree * how * method * option how) : J :=
   let '(tr, h, m, ch) := c in
-  match tr with
-  | Leaf _ => Jtree tr
-  | _ => if arr_clash (df_index (flatten tr) h) (flatten tr) then JErr "ValueError" else Jtree (df_sync tr h m ch)
-  end.
+  match df_sync_checked tr h m ch with Some r => Jtree r | None => JErr "ValueError" end.
 Definition Jcall (c : option Z * list tree) : J := JL [JO JZ (fst c); JL (map Jtree (snd c))].
 Definition run_presync (c : list tree * how * method * option how * cell) : J :=
   let '(args, h, m, ch, d) := c in JL (map Jcall (presync_calls h m ch d args)).
